@@ -2,6 +2,7 @@
 // C08 (metamorphic relations at scale).  Real oneTBB for the *_tbb variants.
 #include "common/scramble_alloc.hpp"
 #include "common/algos.hpp"
+#include <tbb/global_control.h>
 
 using namespace vf;
 
@@ -295,6 +296,8 @@ static void mode_oracle(const Args &a) {
 
 int main(int argc, char **argv) {
     Args a(argc, argv);
+    // many harness processes run side by side: keep oneTBB from oversubscribing the machine (schedules are C03's business)
+    tbb::global_control tbb_limit(tbb::global_control::max_allowed_parallelism, (size_t) std::max<ll>(1, a.geti("tbb_threads", 2)));
     if (a.mode == "c01") mode_c0102(a, false);
     else if (a.mode == "c02") mode_c0102(a, true);
     else if (a.mode == "c09") mode_c09(a);
